@@ -23,7 +23,7 @@ STRICT_IO = False  # model parameter: True = code before the io_counters repair
 FLAG_BITS = [0o2000, 0o100, 0o1000, 0o2000000, 0o4000, 0o40000, 0o200]
 POS = [0, 1, 2 ** 31, 2 ** 63 - 1, 2 ** 64 - 1, 12345]
 TARGET_KINDS = ["reg", "reg", "reg", "reg_deleted_gone", "reg_deleted_present", "reg_space", "relative", "socket",
-                "pipe", "anon", "device", "dir", "nul_garbage", "missing"]
+                "pipe", "anon", "device", "dir", "nul_garbage", "missing", "under_file", "under_file_deleted", "toolong"]
 
 
 def _entry(rng, fd, allow3=True):
@@ -141,6 +141,12 @@ def _paths(e, base):
         return f + "\x00 (deleted)junk", False, True
     if k == "missing":
         return f + ".nothere", False, False
+    if k == "under_file":             # a path component is a regular file: stat() fails with ENOTDIR, not ENOENT
+        return f + "_f/x", False, False
+    if k == "under_file_deleted":     # "<d>/f (deleted)" where <d> has since been replaced by a regular file
+        return f + "_f/x (deleted)", False, False
+    if k == "toolong":                # stat() fails with ENAMETOOLONG
+        return f + "/" + "n" * 300, False, False
     raise ValueError(k)
 
 
@@ -273,6 +279,9 @@ def impl_run(case, coq, env):
             clean = cut[:-10] if cut.endswith(" (deleted)") else cut
             if isreg:
                 with open(clean, "wb") as f:
+                    f.write(b"x")
+            if e["kind"] in ("under_file", "under_file_deleted"):
+                with open(clean[:-2], "wb") as f:   # the regular file standing where a directory is expected
                     f.write(b"x")
             if e["closing"] == "readlink":
                 fail_readlink.add(link)
